@@ -21,8 +21,8 @@ from . import modes as M
 from . import statetrace
 from .replay import write_cfg
 
-FAMILIES_QUICK = [("stack1", 3, 60), ("stackdeep", 3, 40), ("trivia2", 3, 60), ("mods", 3, 40), ("core2", 3, 60)]
-FAMILIES_THOROUGH = [("stack1", 3, 600), ("stackdeep", 3, 400), ("trivia2", 3, 600), ("trivia3", 3, 300), ("mods", 3, 400), ("core2", 3, 0), ("core3", 3, 400), ("stack", 3, 400)]
+FAMILIES_QUICK = [("stack1", 3, 60), ("stackdeep", 3, 40), ("trivia2", 3, 60), ("mods", 3, 40), ("core2", 3, 60), ("trivfx", 3, 60)]
+FAMILIES_THOROUGH = [("stack1", 3, 600), ("stackdeep", 3, 400), ("trivia2", 3, 600), ("trivia3", 3, 300), ("mods", 3, 400), ("core2", 3, 0), ("core3", 3, 400), ("stack", 3, 400), ("trivfx", 3, 0), ("names", 3, 300)]
 
 
 def run(rep: C.Report, pest, thorough: bool) -> None:
